@@ -1027,3 +1027,28 @@ func enumIterPaths(fn *ssa.Function, start *ssa.BasicBlock, prefix []pathStep, m
 	dfs(start, prefix, map[ssa.Value]bool{})
 	return ok
 }
+
+// sameExpr: structural equality of pure SSA expressions (go/ssa performs no common-subexpression elimination).
+func sameExpr(a, b ssa.Value) bool {
+	if a == b {
+		return true
+	}
+	switch x := a.(type) {
+	case *ssa.BinOp:
+		y, ok := b.(*ssa.BinOp)
+		return ok && x.Op == y.Op && sameExpr(x.X, y.X) && sameExpr(x.Y, y.Y)
+	case *ssa.Convert:
+		y, ok := b.(*ssa.Convert)
+		return ok && types.Identical(x.Type(), y.Type()) && sameExpr(x.X, y.X)
+	case *ssa.Const:
+		y, ok := b.(*ssa.Const)
+		if !ok || x.Value == nil || y.Value == nil {
+			return ok && x.Value == y.Value
+		}
+		return x.Value.ExactString() == y.Value.ExactString()
+	case *ssa.UnOp:
+		y, ok := b.(*ssa.UnOp)
+		return ok && x.Op == y.Op && x.Op != token.MUL && x.Op != token.ARROW && sameExpr(x.X, y.X)
+	}
+	return false
+}
